@@ -111,6 +111,14 @@ class Harness:
             self.counters[name] = i + 1
             b = beh[i % n]
             self.trace.append(('S', name, sm.init, getattr(sm, 'tag', None), b if isinstance(b, str) else 'next'))
+            self.cyc_calls = getattr(self, 'cyc_calls', 0) + 1
+            if self.cyc_calls > 40 * 12:
+                raise Runaway()          # (the harness itself must not hang in a cycle that never ends)
+            if b == 'rearm':
+                # the state asks for a new run of itself and finishes (a measurement loop re-arming itself): the new run
+                # begins, but one cycle stays bounded
+                self.issue(('start', name, None), True)
+                return Finish
             if b == 'retry':
                 return Retry
             if b == 'finish':
@@ -196,9 +204,13 @@ class Harness:
                 inj = LineInjector.current
                 if inj is not None:
                     inj.arm(sm, issue, op[1] if len(op) > 1 else ())
+                self.cyc_calls = 0
                 try:
                     sm.cycle()
                     tr.append(('CYC', sum(1 for e in tr[n0:] if e[0] in 'SC')))
+                except Runaway:
+                    tr.append(('CYC', 10 ** 6))
+                    break
                 except Exception as e:
                     tr.append(('EXC', type(e).__name__, str(e)[:100]))
                 if inj is not None:
@@ -207,6 +219,10 @@ class Harness:
                 issue(op)
         tr.append(('END', sm.is_active, sm.statefunc.__name__ if sm.statefunc else None, getattr(sm, 'tag', None)))
         return tr
+
+
+class Runaway(BaseException):
+    """raised by the harness inside a state function when one cycle has made hundreds of state calls"""
 
 
 class LineInjector:
@@ -829,6 +845,53 @@ def _run_module(r, rng, n, inj, Mod, IDLE, BUSY, ERROR):
             r.sample({'module_script': script0, 'ops': ops, 'statuses': statuses[-6:]})
 
 
+def run_rearm(r, api, rng, n):
+    """a state that asks for a new run of itself (or of another state) and finishes - a measurement loop re-arming itself;
+    also a second thread that keeps issuing start whenever the previous one has been taken: each new run begins, but ONE
+    cycle makes a bounded number of state calls and returns"""
+    SM = api.StateMachine
+    Retry, Finish = api.Retry, api.Finish
+    for i in range(n):
+        calls = {'n': 0, 'cycle': 0}
+        budget = rng.choice([3, 10, 10 ** 9])       # how often the state re-arms (for ever: every time it runs)
+        steps = rng.choice([0, 1, 2])               # Retry steps before it re-arms
+
+        def a(sm):
+            calls['n'] += 1
+            calls['cycle'] += 1
+            if calls['cycle'] > 500:
+                raise Runaway()
+            if getattr(sm, 'k', 0) < steps:
+                sm.k = getattr(sm, 'k', 0) + 1
+                return Retry
+            if calls['n'] <= budget:
+                sm.start(a, k=0)
+            return Finish
+        sm = SM(a, k=0) if rng.random() < 0.5 else SM()
+        if sm.statefunc is None:
+            sm.start(a, k=0)
+        worst = 0
+        case = {'kind': 'rearm', 'budget': budget, 'steps': steps}
+        try:
+            for c in range(12):
+                calls['cycle'] = 0
+                sm.cycle()
+                worst = max(worst, calls['cycle'])
+        except Runaway:
+            r.violation('C14/unbounded/state-re-arming-itself', f'a state that starts a new run of itself and finishes: one cycle made more than 500 state calls '
+                        f'(it re-arms {"every time" if budget > 10 ** 6 else str(budget) + " times"})', case)
+            return
+        except Exception as e:
+            r.violation('C14/raises', f'cycle raised {type(e).__name__}: {e} with a state re-arming itself'[:200], case)
+            return
+        r.count('rearm_sequences')
+        r.maximum('rearm_max_state_calls_in_one_cycle', worst)
+        r.case(('rearm', budget, steps), True)
+        if worst > 2 * 10 + 2:
+            r.violation('C14/unbounded/state-re-arming-itself', f'{worst} state calls in one cycle', case)
+            return
+
+
 def plan(tier, seed, scale=1.0):
     return [{'idx': i, 'depth': DEPTH[tier], 'nprog': NPROG[tier], 'nrandom': int(NRANDOM[tier] * scale),
              'nmodule': int(NMODULE[tier] * scale / 16) + 1,
@@ -854,6 +917,7 @@ def run_shard(shard):
     run_random(r, api, rng, shard['nrandom'])
     run_threaded(r, api, progs, rng, shard['idx'], 16, shard.get('thr_depth', 3), shard.get('thr_random', 400), shard.get('thr_budget', 6))
     run_module(r, rng, shard['nmodule'])
+    run_rearm(r, api, rng, 40)
     return r.result()
 
 
